@@ -4,8 +4,9 @@ import json, os, shutil, sys
 src, sid, prop, caught, checks = sys.argv[1:6]
 dst = os.path.join('/verif/seeded', sid)
 os.makedirs(dst, exist_ok=True)
-for f in ('patch.diff', 'demo.py', 'notes.md'):
-    shutil.copy(os.path.join(src, f), os.path.join(dst, f))
+for f in ('patch.diff', 'demo.py', 'notes.md', 'patch.orig.diff'):
+    if os.path.exists(os.path.join(src, f)):
+        shutil.copy(os.path.join(src, f), os.path.join(dst, f))
 notes = open(os.path.join(src, 'notes.md')).read()
 meta = {
     'id': sid, 'breaks_property': prop,
